@@ -53,6 +53,10 @@ EXC_TYPES = {
     "LookupError": lambda m: LookupError(m),
     "CancelledError": lambda m: asyncio.CancelledError(m),
     "TimeoutError": lambda m: asyncio.TimeoutError(m),
+    # exceptions as libraries raise them: without arguments, or with arguments that are no text
+    "NoArgs": lambda m: ValueError(),
+    "TimeoutNoArgs": lambda m: asyncio.TimeoutError(),
+    "NonTextArgs": lambda m: RuntimeError(42, b"\xff\r\n", None),
 }
 
 
